@@ -713,11 +713,9 @@ class DesignSpace:
                 )
                 raise ValueError(msg)
             if variable_names is None:
-                if self.__lower_bounds_array is None:
-                    self.__lower_bounds_array = self.get_lower_bounds()
-
-                if self.__upper_bounds_array is None:
-                    self.__upper_bounds_array = self.get_upper_bounds()
+                if not self.__norm_data_is_computed:
+                    # The arrays of bounds may be missing or out-of-date.
+                    self.__update_normalization_vars()
 
                 self.__check_membership_x_vect(x_vect)
             else:
